@@ -171,7 +171,11 @@ class FFDirector(SectionLineParser):
             # add FF wide citations
             self.current_link.citations.update(self.citations)
             self.current_link.make_edges_from_interactions()
-            self.force_field.links.append(self.current_link)
+            # The current link stays set until the next link starts, while
+            # this method is called at every top-level section: make sure the
+            # link gets added only once.
+            if not any(link is self.current_link for link in self.force_field.links[-1:]):
+                self.force_field.links.append(self.current_link)
 
         if self.current_modification is not None:
             # add FF wide citations
